@@ -11,9 +11,12 @@ VARIANTS = {
     "shim": {"kind": "core", "shim": True, "shim_mode": "full"},
     "shimtime": {"kind": "core", "shim": True, "shim_mode": "time"},
     # kind=module: in-module overlay for a nested module of the repository
-    "s3": {"kind": "module", "moddir": "vgirpc/s3", "harness": "s3"},
-    "gcs": {"kind": "module", "moddir": "vgirpc/gcs", "harness": "gcs"},
-    "otel": {"kind": "module", "moddir": "vgirpc/otel", "harness": "otel", "gomod": True},
+    # shim_time: module sources go through the rewriter in -mode time (virtual clock);
+    # core_replace: private go.mod copy (-modfile) with `replace <core> => <REPO working tree>`
+    "s3": {"kind": "module", "moddir": "vgirpc/s3", "harness": "s3", "shim_time": True},
+    "gcs": {"kind": "module", "moddir": "vgirpc/gcs", "harness": "gcs", "shim_time": True},
+    "otel": {"kind": "module", "moddir": "vgirpc/otel", "harness": "otel", "core_replace": True,
+             "extra_requires": ["go.opentelemetry.io/otel/sdk", "go.opentelemetry.io/otel/sdk/metric"]},
 }
 
 A_ALPHABET = "only cases built from the listed alphabets up to the listed bounds are covered (small-scope claim)"
